@@ -31,14 +31,15 @@ type KSCorruption struct {
 
 // KSOp is one operation on the key storage.
 type KSOp struct {
-	Op     string        `json:"op"` // init add del get snap restore corrupt
-	Slot   string        `json:"slot,omitempty"`
-	Key    int           `json:"key,omitempty"`
-	New    string        `json:"new,omitempty"`
-	NewKey int           `json:"new_key,omitempty"`
-	Snap   int           `json:"snap,omitempty"`
-	Fresh  bool          `json:"fresh,omitempty"`
-	Corr   *KSCorruption `json:"corr,omitempty"`
+	Op      string        `json:"op"` // init add del get snap restore corrupt race
+	Slot    string        `json:"slot,omitempty"`
+	Key     int           `json:"key,omitempty"`
+	New     string        `json:"new,omitempty"`
+	NewKey  int           `json:"new_key,omitempty"`
+	NewKey2 int           `json:"new_key2,omitempty"` // race: the second concurrent AddKeySlot of the same new slot id
+	Snap    int           `json:"snap,omitempty"`
+	Fresh   bool          `json:"fresh,omitempty"`
+	Corr    *KSCorruption `json:"corr,omitempty"`
 }
 
 // C20Case is a C20 run.
@@ -54,7 +55,7 @@ func init() { register(c20{}) }
 func (c20) ID() string { return "C20" }
 
 func (c20) Rule() string {
-	return "case = <=14 operations Initialize / AddKeySlot / DeleteKeySlot / GetMasterKey / MarshalBinary snapshot / UnmarshalBinary of any earlier snapshot (into the same or a fresh storage) over 4 slot ids and 5 x25519 key pairs with right, wrong and dead credentials, plus <=4 single-field corruptions of the serialized form (encrypted blob flipped/truncated/extended/swapped/re-encrypted/emptied, slot added as copy/attacker-encrypted/random/empty or removed, integrity tag flipped/truncated/extended/emptied) each followed by 1-3 retrievals (get/add/delete) that must all fail; after every operation all slots are audited against a live-slot model (live slot + its key -> the original master key; dead slot or wrong key -> error); non-trivial = >=2 successful slot changes, >=1 unmarshal and >=1 corruption exercised; distinct = distinct operation-sequence hash; one task, no clock: the fault dimension is stored-form corruption between marshal and unmarshal"
+	return "case = <=14 operations Initialize / AddKeySlot / DeleteKeySlot / GetMasterKey / MarshalBinary snapshot / UnmarshalBinary of any earlier snapshot (into the same or a fresh storage) over 4 slot ids and 5 x25519 key pairs with right, wrong and dead credentials, plus <=4 single-field corruptions of the serialized form (encrypted blob flipped/truncated/extended/swapped/re-encrypted/emptied, slot added as copy/attacker-encrypted/random/empty or removed, integrity tag flipped/truncated/extended/emptied) each followed by 1-3 retrievals (get/add/delete) that must all fail; after every operation all slots are audited against a live-slot model (live slot + its key -> the original master key; dead slot or wrong key -> error); non-trivial = >=2 successful slot changes, >=1 unmarshal and >=1 corruption exercised; distinct = distinct operation-sequence hash; mostly one task (plus an operation in which two tasks add the same new slot id concurrently: exactly one may win), no clock: the fault dimension is stored-form corruption between marshal and unmarshal, including a planted slot whose empty key field is present on the wire"
 }
 
 func (c20) Components() (real, stub []string) {
@@ -72,7 +73,7 @@ var ksSlots = []string{"s0", "s1", "s2", "s3"}
 
 const ksKeys = 5
 
-var ksCorruptions = []string{"blob-flip", "blob-trunc", "blob-append", "blob-swap", "blob-reencrypt", "blob-empty", "slot-add-copy", "slot-add-attacker", "slot-add-random", "slot-add-empty", "slot-remove", "hmac-flip", "hmac-trunc", "hmac-extend", "hmac-empty"}
+var ksCorruptions = []string{"slot-add-empty-wire", "blob-flip", "blob-trunc", "blob-append", "blob-swap", "blob-reencrypt", "blob-empty", "slot-add-copy", "slot-add-attacker", "slot-add-random", "slot-add-empty", "slot-remove", "hmac-flip", "hmac-trunc", "hmac-extend", "hmac-empty"}
 
 func (c20) Gen(seed uint64, tier string) Case {
 	r := simrt.NewRNG(seed)
@@ -102,6 +103,16 @@ func (c20) Gen(seed uint64, tier string) Case {
 			c.Ops = append(c.Ops, op)
 			inited = true
 			live[op.Slot] = op.Key
+			continue
+		}
+		if inited && r.Bool(0.08) {
+			// two callers add the same new slot at the same time
+			s, k, _ := pickLive()
+			op := KSOp{Op: "race", New: ksSlots[r.Intn(4)], NewKey: r.Intn(ksKeys), Slot: s, Key: k}
+			op.NewKey2 = (op.NewKey + 1 + r.Intn(ksKeys-1)) % ksKeys
+			c.Ops = append(c.Ops, op)
+			// which of the two wins is up to the schedule: later operations of this case use the slot with either key
+			// (the run-time model knows the winner)
 			continue
 		}
 		switch r.Pick([]int{1, 5, 3, 2, 3, 3, 4}) {
@@ -381,6 +392,42 @@ func (c20) Run(t *testing.T, cs Case, trace bool) *Outcome {
 						slotChanges++
 					}
 				}
+			case "race":
+				if _, ok := model.live[op.Slot]; !ok || model.live[op.Slot] != op.Key {
+					continue
+				}
+				_, existed := model.live[op.New]
+				errs := make([]error, 2)
+				for k, nk := range []int{op.NewKey, op.NewKey2} {
+					s.Spawn(fmt.Sprintf("adder%d", k), func() {
+						errs[k] = ks.AddKeySlot(op.New, keys[nk].priv, op.Slot, keys[op.Key].priv)
+					})
+				}
+				if r := s.Settle(100000); r != simrt.Quiescent {
+					out.HarnessErr = fmt.Sprintf("C20 race did not become quiescent: %v", r)
+					return
+				}
+				out.fault("concurrent-add-same-slot")
+				note("#%d race add new=%s keys k%d/k%d via %s -> %v / %v", i, op.New, op.NewKey, op.NewKey2, op.Slot, errs[0], errs[1])
+				s.Note("%d race %s ok=%v/%v", i, op.New, errs[0] == nil, errs[1] == nil)
+				switch {
+				case existed && (errs[0] == nil || errs[1] == nil):
+					fail("existing-slot-overwritten", "operation #%d: slot %s exists, but a concurrent AddKeySlot for it succeeded", i, op.New)
+					return
+				case existed:
+				case errs[0] == nil && errs[1] == nil:
+					fail("existing-slot-overwritten", "operation #%d: two concurrent AddKeySlot calls for the same new slot %s both reported success: one caller's slot was silently replaced", i, op.New)
+					return
+				case errs[0] != nil && errs[1] != nil:
+					fail("op-result:race", "operation #%d: two concurrent AddKeySlot calls for the free slot %s with valid credentials both failed: %v / %v", i, op.New, errs[0], errs[1])
+					return
+				case errs[0] == nil:
+					model.live[op.New] = op.NewKey
+					slotChanges++
+				default:
+					model.live[op.New] = op.NewKey2
+					slotChanges++
+				}
 			case "snap":
 				if !model.inited {
 					continue
@@ -433,6 +480,13 @@ func (c20) Run(t *testing.T, cs Case, trace bool) *Outcome {
 				if err != nil {
 					out.HarnessErr = "re-encode: " + err.Error()
 					return
+				}
+				if co.Kind == "slot-add-empty-wire" {
+					// a planted slot whose encrypted_key field is PRESENT on the wire with length zero (the encoder above
+					// omits empty fields): Storage.key_slots entry {key: id, value: KeySlot{algorithm: 1, encrypted_key: ""}}
+					entry := append([]byte{0x0a, byte(len(co.Slot))}, co.Slot...)
+					entry = append(entry, 0x12, 0x04, 0x08, 0x01, 0x12, 0x00)
+					mut = append(append(mut, 0x12, byte(len(entry))), entry...)
 				}
 				if bytes.Equal(mut, data) {
 					continue
@@ -536,6 +590,11 @@ func applyKSCorruption(stg *key_storage.Storage, co *KSCorruption, keys []ksKey,
 			return false
 		}
 		slot.EncryptedKey = nil
+	case "slot-add-empty-wire":
+		if slot != nil || len(ids) == 0 {
+			return false
+		}
+		// applied on the wire form by the caller
 	case "slot-add-copy", "slot-add-attacker", "slot-add-random", "slot-add-empty":
 		if slot != nil || len(ids) == 0 {
 			return false
